@@ -543,4 +543,80 @@ static inline void fsrc_seeded(int count, unsigned seed) {
         fsrc<T,N,SN,F,St,OP,DYN>(m.c_str());
     }
 }
+// ---------------------------------------------------------------------------------------------
+// right-hand sides that Fastor evaluates into a temporary first (requires_evaluation), then assigns element-wise.
+// Windows: 1 = A (parent), 2 = P (or B for the aliasing kind), 3 = Q / q / C, 4 = D.
+//   KIND 0: P % Q      1: trans(C)      2: P % Q + D      3: a product that reads the parent A itself
+// 1-D index view (the n-D index view class has no evaluating overload: such statements do not compile)
+template<typename T, typename Int, size_t N, size_t M, int OP, int KIND>
+static inline void staged1(const char* i0s) {
+    using namespace Fastor;
+    std::vector<long> i0 = parse(i0s);
+    Tensor<Int,M> it; fill_idx(it, i0);
+    std::printf("rstaged cfg=%s sz=%d vea=%d c=%zu n=%zu i0=%s ity=%s op=%s kind=%d", CFGNAME, (int)sizeof(T), RV_VEA, N, M, join(i0).c_str(), ityn<Int>::n(), OPN[OP], KIND);
+    std::fflush(stdout);
+    Case<T>::begin();
+    using PT = Tensor<T,N>;
+    PT* A = arena_tensor<PT>(1); Tensor<T,M,2>* P = arena_tensor<Tensor<T,M,2>>(2); Tensor<T,2>* q = arena_tensor<Tensor<T,2>>(3); Tensor<T,M>* D = arena_tensor<Tensor<T,M>>(4);
+    Tensor<T,M,N>* B = arena_tensor<Tensor<T,M,N>>(5);
+    vf::trace.clear(); vf::trace.on = true;
+    if (KIND == 0) asg(tag<OP>(), (*A)(it), (*P) % (*q));
+    else if (KIND == 2) asg(tag<OP>(), (*A)(it), (*P) % (*q) + (*D));
+    else asg(tag<OP>(), (*A)(it), (*B) % (*A));
+    vf::trace.on = false;
+    auto s = summarise(1, g_verbose);
+    bool ok = true; long bad = -1;
+    if (dupfree(i0)) {
+        std::vector<long> who(N, -1); for (size_t j = 0; j < M; ++j) who[i0[j]] = j;
+        for (size_t p = 0; p < N && ok; ++p) {
+            Poly want = tokp(1, p);
+            if (who[p] >= 0) {
+                long j = who[p]; Poly t;
+                if (KIND == 3) { for (size_t k = 0; k < N; ++k) t = padd(t, pmul(tokp(5, j * N + k), tokp(1, k))); }
+                else { t = padd(pmul(tokp(2, 2 * j), tokp(3, 0)), pmul(tokp(2, 2 * j + 1), tokp(3, 1))); if (KIND == 2) t = padd(t, tokp(4, j)); }
+                want = apply(OP, tokp(1, p), t);
+            }
+            if (want != pool.v[A->data()[p].h]) { ok = false; bad = p; }
+        }
+    }
+    tail_line((int)PT::simd_vector_type::Size, A->data(), N, sizeof(T), s, ok, bad);
+}
+// mask view of a 2-D tensor
+template<typename T, size_t M, size_t N, int OP, int KIND>
+static inline void fstaged(const char* mask) {
+    using namespace Fastor;
+    std::printf("fstaged cfg=%s sz=%d m=%zu n=%zu mask=%s op=%s kind=%d", CFGNAME, (int)sizeof(T), M, N, mask, OPN[OP], KIND);
+    std::fflush(stdout);
+    Case<T>::begin();
+    using PT = Tensor<T,M,N>;
+    PT* A = arena_tensor<PT>(1); Tensor<T,M,2>* P = arena_tensor<Tensor<T,M,2>>(2); Tensor<T,2,N>* Q = arena_tensor<Tensor<T,2,N>>(3); PT* D = arena_tensor<PT>(4);
+    Tensor<T,N,N>* B = arena_tensor<Tensor<T,N,N>>(5); Tensor<T,N,M>* C = arena_tensor<Tensor<T,N,M>>(6);
+    Tensor<bool,M,N> fl; for (size_t p = 0; p < M * N; ++p) fl.data()[p] = mask[p] == '1';
+    vf::trace.clear(); vf::trace.on = true;
+    if (KIND == 0) asg(tag<OP>(), (*A)(fl), (*P) % (*Q));
+    else if (KIND == 1) asg(tag<OP>(), (*A)(fl), trans(*C));
+    else if (KIND == 2) asg(tag<OP>(), (*A)(fl), (*P) % (*Q) + (*D));
+    else asg(tag<OP>(), (*A)(fl), (*A) % (*B));
+    vf::trace.on = false;
+    auto s = summarise(1, g_verbose);
+    bool ok = true; long bad = -1;
+    for (size_t i = 0; i < M && ok; ++i) for (size_t j = 0; j < N && ok; ++j) {
+        size_t p = i * N + j; Poly t;
+        if (KIND == 1) t = tokp(6, j * M + i);
+        else if (KIND == 3) { for (size_t k = 0; k < N; ++k) t = padd(t, pmul(tokp(1, i * N + k), tokp(5, k * N + j))); }
+        else { t = padd(pmul(tokp(2, 2 * i), tokp(3, j)), pmul(tokp(2, 2 * i + 1), tokp(3, N + j))); if (KIND == 2) t = padd(t, tokp(4, p)); }
+        Poly want = mask[p] == '1' ? apply(OP, tokp(1, p), t) : tokp(1, p);
+        if (want != pool.v[A->data()[p].h]) { ok = false; bad = p; }
+    }
+    tail_line((int)PT::simd_vector_type::Size, A->data(), M * N, sizeof(T), s, ok, bad);
+}
+template<typename T, size_t M, size_t N, int OP, int KIND>
+static inline void fstaged_seeded(int count, unsigned seed) {
+    uint64_t st = seed * 2654435761u + 11;
+    for (int q = 0; q < count; ++q) {
+        std::string m(M * N, '0');
+        for (auto& ch : m) { st = mix64(st); ch = (q != 1 && (q == 0 || (st >> 13 & 1))) ? '1' : '0'; }
+        fstaged<T,M,N,OP,KIND>(m.c_str());
+    }
+}
 } // namespace rv
